@@ -670,11 +670,11 @@ theorem leave_inv {r : Realm} (hi : RealmInv r) (k : SessKey) (mode : LeaveMode)
     have g13 : Good r r3 := g1.trans (g2.trans g3)
     have q13 : r3.retries = r.retries := by rw [q3, q2, q1]
     -- announce
-    have h4 : RealmInv (leaveAnnounce r3 s ((leaveSend r k mode).takeTestaments k).1 (mode.isShutdown || mode.killAll)) ∧
-        (leaveAnnounce r3 s ((leaveSend r k mode).takeTestaments k).1 (mode.isShutdown || mode.killAll)).panic = r3.panic ∧
-        (leaveAnnounce r3 s ((leaveSend r k mode).takeTestaments k).1 (mode.isShutdown || mode.killAll)).clients = r3.clients ∧
-        (leaveAnnounce r3 s ((leaveSend r k mode).takeTestaments k).1 (mode.isShutdown || mode.killAll)).retries = r3.retries ∧
-        Gone (leaveAnnounce r3 s ((leaveSend r k mode).takeTestaments k).1 (mode.isShutdown || mode.killAll)) k := by
+    have h4 : RealmInv (leaveAnnounce r3 s ((leaveSend r k mode).takeTestaments k).1 mode.isShutdown) ∧
+        (leaveAnnounce r3 s ((leaveSend r k mode).takeTestaments k).1 mode.isShutdown).panic = r3.panic ∧
+        (leaveAnnounce r3 s ((leaveSend r k mode).takeTestaments k).1 mode.isShutdown).clients = r3.clients ∧
+        (leaveAnnounce r3 s ((leaveSend r k mode).takeTestaments k).1 mode.isShutdown).retries = r3.retries ∧
+        Gone (leaveAnnounce r3 s ((leaveSend r k mode).takeTestaments k).1 mode.isShutdown) k := by
       unfold leaveAnnounce
       split
       · exact ⟨g13.1, rfl, rfl, rfl, gone3⟩
@@ -686,7 +686,7 @@ theorem leave_inv {r : Realm} (hi : RealmInv r) (k : SessKey) (mode : LeaveMode)
           · obtain ⟨x, _, rfl⟩ := List.mem_map.mp h; trivial
           · cases h
         · rw [List.mem_singleton.mp h]; trivial
-    generalize leaveAnnounce r3 s ((leaveSend r k mode).takeTestaments k).1 (mode.isShutdown || mode.killAll) = r4 at h4
+    generalize leaveAnnounce r3 s ((leaveSend r k mode).takeTestaments k).1 mode.isShutdown = r4 at h4
     obtain ⟨i4, p4, c4, q4, gone4⟩ := h4
     have gone4' : Gone r4 s.key := hsk ▸ gone4
     have hre : ∀ x ∈ r4.retries, x.callee ≠ s.key := by
